@@ -1,1 +1,6 @@
+import EchoProofs.C01
+import EchoProofs.C02
 import EchoProofs.C14
+import EchoProofs.Spec.Basics
+import EchoProofs.Spec.Perm
+import EchoProofs.Spec.Sound
